@@ -69,11 +69,79 @@ class SymBytes:
             raise EngineLimit('builtin len() of symbolic-length bytes')
         return n
 
+    def _flat(self):
+        """per-byte values (int | z3 8-bit expression); needs concrete lengths and no opaque content"""
+        import z3
+        out = []
+        for s in self.segs:
+            if s.kind == 'lit':
+                out.extend(s.data)
+            elif s.kind == 'int' and isinstance(s.n, int):
+                v = s.value
+                if isinstance(v, SymInt):
+                    e = v.bv(8 * s.n)
+                    bs = [z3.Extract(8 * k + 7, 8 * k, e) for k in range(s.n)]
+                else:
+                    bs = list((v % (1 << (8 * s.n))).to_bytes(s.n, 'little'))
+                out.extend(bs if s.endian == '<' else bs[::-1])
+            elif s.kind == 'zeros' and isinstance(s.count, int):
+                out.extend([0] * s.count)
+            else:
+                _path().flag('== on symbolic bytes of symbolic length / opaque content')
+                raise EngineLimit('== on symbolic bytes of symbolic length / opaque content')
+        return out
+
+    def _equals(self, o):
+        import z3
+        if not isinstance(o, (bytes, bytearray, SymBytes, SymByteArray)):
+            return False
+        a, b = self._flat(), SymBytes.of(o)._flat()
+        if len(a) != len(b):
+            return False
+        conds = []
+        for x, y in zip(a, b):
+            if isinstance(x, int) and isinstance(y, int):
+                if x != y:
+                    return False
+                continue
+            xe = x if not isinstance(x, int) else z3.BitVecVal(x, 8)
+            ye = y if not isinstance(y, int) else z3.BitVecVal(y, 8)
+            if xe.eq(ye):
+                continue
+            conds.append(xe == ye)
+        if not conds:
+            return True
+        return bool(core.SymBool(z3.And(*conds)))       # forks
+
     def __eq__(self, o):
-        _path().flag('== on symbolic bytes')
-        raise EngineLimit('== on symbolic bytes')
+        return self._equals(o)
+
+    def __ne__(self, o):
+        return not self._equals(o)
 
     __hash__ = object.__hash__
+
+    def take(self, n):
+        """first n bytes (n concrete); a multi-byte integer is never split"""
+        out, left = [], n
+        for s in self.segs:
+            if left <= 0:
+                break
+            ln = s.length()
+            if isinstance(ln, SymInt):
+                raise EngineLimit('prefix of bytes with a symbolic-length segment')
+            if ln <= left:
+                out.append(s)
+                left -= ln
+            elif s.kind == 'lit':
+                out.append(Seg('lit', data=s.data[:left]))
+                left = 0
+            elif s.kind == 'zeros':
+                out.append(Seg('zeros', count=left))
+                left = 0
+            else:
+                raise EngineLimit('prefix of bytes splits an integer / opaque segment')
+        return SymBytes(out)
 
     def is_concrete(self):
         return all(s.kind == 'lit' for s in self.segs)
@@ -104,6 +172,14 @@ class SymByteArray:
 
     def __len__(self):
         return len(SymBytes(self.segs))
+
+    def __eq__(self, o):
+        return SymBytes(self.segs)._equals(o)
+
+    def __ne__(self, o):
+        return not SymBytes(self.segs)._equals(o)
+
+    __hash__ = object.__hash__
 
     def __repr__(self):
         return 'SymByteArray(%s)' % ', '.join(map(repr, self.segs))
